@@ -159,8 +159,33 @@ def first_call_from(f, bb, limit=4):
     return None
 
 
+class _Identity:
+    """Stand-in callee: fast_log2(x) is taken to be the variable itself, so digit_log<R>(L) is evaluated as a
+    function of the bit length L."""
+    def value(self, args):
+        return args[0]
+
+
 def div_const(g):
-    """k such that g computes fast_log2(x)/k + 1 (k = 1 when there is no division)."""
+    """k such that g computes fast_log2(x)/k + 1 for every bit length 0..127 - decided by evaluating g's paths
+    (so `/ 2`, `>> 1`, `* 43 >> 7` on its exact range ... all count), None if it is not of that form."""
+    try:
+        from rules.pathmodel import Model, Shape, Panic
+        callees = {callee_name(c): _Identity() for _bb, c, _a, _d, _t in g.calls() if callee_name(c).endswith("fast_log2")}
+        if callees:
+            m = Model(g, ty="usize", callees=callees)
+            vals = [m.value([L]) for L in range(128)]
+            for k in range(1, 8):
+                if all(vals[L] == L // k + 1 for L in range(128)):
+                    return k
+            return None
+    except Exception:
+        pass
+    return _div_const_shape(g)
+
+
+def _div_const_shape(g):
+    """(fallback) k such that g computes fast_log2(x)/k + 1 (k = 1 when there is no division)."""
     k = 1
     saw_log2 = False
     for _bb, callee, _a, _d, _t in g.calls():
